@@ -19,12 +19,19 @@
 EXTENDS Naturals
 
 CONSTANT Variant     \* "as_documented" | "mutant" (the policy "new" also falls back from an expired copy)
+                     \* | "snapshot_first_removes" (the copy is removed before the new snapshot has arrived)
 
 Policies == {"never", "stale", "new"}
 Outcomes == {"updated", "current", "stale", "unavailable"}
+(* What is on disk before the run, and how this run's update goes.  The outcome is not an input: try_update          *)
+(* (rrdp/base.rs:771) derives it from these two.  A failing update may fail at the notification file (no further     *)
+(* request is made) or later, after a good notification, at the snapshot it needs (new session: no deltas to try);   *)
+(* a failing delta alone is no failure, the update goes on with the snapshot.                                         *)
+Copies  == {"none", "current", "expired"}
+Results == {"ok", "notify_fails", "snapshot_fails", "delta_fails"}
 
-VARIABLES policy, outcome, rrdpOn, rsyncOn, notify, decision, rrdpAsked, done
-vars == <<policy, outcome, rrdpOn, rsyncOn, notify, decision, rrdpAsked, done>>
+VARIABLES policy, copy, result, outcome, rrdpOn, rsyncOn, notify, decision, rrdpAsked, done
+vars == <<policy, copy, result, outcome, rrdpOn, rsyncOn, notify, decision, rrdpAsked, done>>
 
 (* The documented table (the property). *)
 Documented(p, o, rrdp, rsync, n) ==
@@ -38,16 +45,34 @@ Documented(p, o, rrdp, rsync, n) ==
        THEN "rsync"
   ELSE "none"
 
+(* The outcome the property speaks of: what the copy was when the update failed. *)
+OutcomeOf(c, r) ==
+  IF r \in {"ok", "delta_fails"} THEN "updated"
+  ELSE CASE c = "none" -> "unavailable" [] c = "current" -> "current" [] c = "expired" -> "stale"
+
 Init ==
-  /\ policy \in Policies /\ outcome \in Outcomes
+  /\ policy \in Policies /\ copy \in Copies /\ result \in Results
+  /\ (result = "delta_fails" => copy # "none")          \* deltas are only tried on top of a copy
   /\ rrdpOn \in BOOLEAN /\ rsyncOn \in BOOLEAN /\ notify \in BOOLEAN
-  /\ decision = "pending" /\ rrdpAsked = FALSE /\ done = FALSE
+  /\ outcome = "pending" /\ decision = "pending" /\ rrdpAsked = FALSE /\ done = FALSE
 
 RsyncOrNone == IF rsyncOn THEN "rsync" ELSE "none"
 
+(* try_update: a failed update leaves the copy as it was and classifies it (base.rs:771-860) *)
+CopyAtClassification ==
+  IF Variant = "snapshot_first_removes" /\ result = "snapshot_fails" THEN "none" ELSE copy
+
+TryUpdate ==
+  /\ outcome = "pending" /\ ~done
+  /\ outcome' = IF result \in {"ok", "delta_fails"} THEN "updated"
+                ELSE CASE CopyAtClassification = "none"    -> "unavailable"
+                       [] CopyAtClassification = "current" -> "current"
+                       [] CopyAtClassification = "expired" -> "stale"
+  /\ UNCHANGED <<policy, copy, result, rrdpOn, rsyncOn, notify, decision, rrdpAsked, done>>
+
 (* Run::repository, branch by branch *)
 Repository ==
-  /\ ~done /\ done' = TRUE
+  /\ ~done /\ done' = TRUE /\ outcome # "pending"
   /\ rrdpAsked' = (notify /\ rrdpOn)                                        \* base.rs:194-196
   /\ decision' =
        IF notify /\ rrdpOn
@@ -57,10 +82,11 @@ Repository ==
                 [] outcome = "current"     -> "none"                                             \* :220-224
                 [] outcome = "updated"     -> "rrdp"                                             \* :225-228
          ELSE RsyncOrNone                                                                        \* :233-240
-  /\ UNCHANGED <<policy, outcome, rrdpOn, rsyncOn, notify>>
+  /\ UNCHANGED <<policy, copy, result, outcome, rrdpOn, rsyncOn, notify>>
 
-Spec == Init /\ [][Repository]_vars
+Next == TryUpdate \/ Repository
+Spec == Init /\ [][Next]_vars
 
-C29_FollowsTable == done => decision = Documented(policy, outcome, rrdpOn, rsyncOn, notify)
+C29_FollowsTable == done => decision = Documented(policy, OutcomeOf(copy, result), rrdpOn, rsyncOn, notify)
 C29_RrdpOnlyIfAnnouncedAndEnabled == done => (rrdpAsked <=> (notify /\ rrdpOn))
 =============================================================================
